@@ -19,6 +19,6 @@ def run(tier, replay=None):
         raise vlib.ToolError("a generated derive+Encode program does not compile: %s\n%s" % (src, "\n".join(x["rendered"] for x in diags[:2])))
     DC.validate_all(c, "C03", tr)
     c.cov["exhaustive"] = False
-    c.cov["rule"] = "declarations as for C09 (TLC-enumerated pairwise feature plans incl. encoded_as + seeded random declarations), each deriving TypeInfo and Encode; per type several random values with a value tree computed by an oracle generated from the DECLARATION; TLC decodes the real bytes using only the real PortableRegistry (ScaleValue.Dec) and requires exact consumption, same variant (first byte = metadata index), field names, order and leaves; reported indices follow codec(index) > discriminant > position among non-skipped"
+    c.cov["rule"] = "declarations as for C09 (TLC-enumerated feature plans: every set of <=%d features, incl. encoded_as + seeded random declarations), each deriving TypeInfo and Encode; per type several random values with a value tree computed by an oracle generated from the DECLARATION; TLC decodes the real bytes using only the real PortableRegistry (ScaleValue.Dec) and requires exact consumption, same variant (first byte = metadata index), field names, order and leaves; reported indices follow codec(index) > discriminant > position among non-skipped" % (4 if tier == "thorough" else 2)
     c.assumptions += ["generic #[codec(compact)] members are outside the grammar (README known issue)", "values of skipped variants are not generated (they cannot be encoded)"]
     return c.finish()
